@@ -450,13 +450,18 @@ elf_get_bits(struct kdump_shared *shared,
 
 	cur = first;
 	do {
+		size = ismem ? pls->memsz : pls->filesz;
+		if (!size)
+			continue;
+
 		next = addr_to_pfn(shared, pls->phys);
+		if (next > last)
+			break;
 		if (cur < next) {
 			clear_bits(bits, cur - first, next - 1 - first);
 			cur = next;
 		}
 
-		size = ismem ? pls->memsz : pls->filesz;
 		next = addr_to_pfn(shared, pls->phys + size - 1);
 		if (next >= last) {
 			set_bits(bits, cur - first, last - first);
@@ -466,10 +471,10 @@ elf_get_bits(struct kdump_shared *shared,
 			set_bits(bits, cur - first, next - first);
 			cur = next + 1;
 		}
-		++pls;
-	} while (pls < &edp->load_sorted[edp->num_load_sorted]);
+	} while (++pls < &edp->load_sorted[edp->num_load_sorted]);
 
-	clear_bits(bits, cur - first, last - first);
+	if (cur <= last)
+		clear_bits(bits, cur - first, last - first);
 }
 
 static kdump_status
